@@ -5,15 +5,17 @@ import SaramaVerif.Lemmas.C16Sets
   Bridge obligations for C16: the definitions regenerated from produce_set.go / async_producer.go on this run
   (Gen.C16.*) compute what the hand-written model computes, on all inputs in the Go types' ranges.
   Loops (the header loops of byteSize and add) are tied through their extracted bodies folded over the list;
-  that the loops visit every header once, the control flow of `add` between the extracted fragments and the
-  constants maximumRecordOverhead / binary.MaxVarintLen32 / MaxRequestSize (not extractable: stdlib selector
-  expressions, a package variable) are tied by the `consts` line and the differential run of the harness.
+  that the loops visit every header once and the control flow of `add` between the extracted fragments are
+  tied by the differential run of the harness.  The constants maximumRecordOverhead (through
+  binary.MaxVarintLen32/64) and the initial value of MaxRequestSize are extracted.
 -/
 namespace Bridge.C16
 open Go Model.ProduceSet Lemmas.C16
 
 theorem producerMessageOverhead_eq : Gen.C16.producerMessageOverhead = producerMessageOverhead := rfl
 theorem recordBatchOverhead_eq : Gen.C16.recordBatchOverhead = recordBatchOverhead := rfl
+theorem maximumRecordOverhead_eq : Gen.C16.maximumRecordOverhead = maximumRecordOverhead := rfl
+theorem maxRequestSizeDefault_eq : Gen.C16.maxRequestSizeDefault = defaultMaxRequestSize := rfl
 
 private theorem add64_id {a b : Int} (h : InI64 (a + b)) : add64 a b = a + b := wrap64_id h
 private theorem sub64_id {a b : Int} (h : InI64 (a - b)) : sub64 a b = a - b := wrap64_id h
@@ -79,20 +81,20 @@ theorem readyToFlush_eq (c : Conf) (s : State) :
 theorem empty_eq (s : State) : Gen.C16.empty s.bufferCount = isEmpty s := rfl
 
 /-- the header loop body of byteSize / add, folded over the headers -/
-def hdrFold (step : Int → Int → Int → Int → Int) (mv32 : Int) (size : Int) : List (Nat × Nat) → Int
+def hdrFold (step : Int → Int → Int → Int) (size : Int) : List (Nat × Nat) → Int
   | [] => size
-  | h :: t => hdrFold step mv32 (step size h.1 h.2 mv32) t
+  | h :: t => hdrFold step (step size h.1 h.2) t
 
-private theorem hdrFold_eq (step : Int → Int → Int → Int → Int)
-    (hstep : ∀ size hk hv, step size hk hv 5 = add64 size (add64 (add64 hk hv) (mul64 2 5)))
+private theorem hdrFold_eq (step : Int → Int → Int → Int)
+    (hstep : ∀ size hk hv, step size hk hv = add64 size (add64 (add64 hk hv) (2 * 5)))
     (hs : List (Nat × Nat)) (size : Int) (h0 : 0 ≤ size) (hr : size + headersSize hs ≤ 9223372036854775807) :
-    hdrFold step 5 size hs = size + headersSize hs := by
+    hdrFold step size hs = size + headersSize hs := by
   induction hs generalizing size with
   | nil => simp [hdrFold, headersSize]
   | cons a t ih =>
     have hn := headersSize_nonneg t
     simp only [headersSize, maxVarintLen32] at hr
-    have e1 : mul64 2 5 = 10 := by decide
+    have e1 : (2 : Int) * 5 = 10 := by decide
     have e2 : add64 (a.1 : Int) (a.2 : Int) = (a.1 : Int) + (a.2 : Int) := add64_id (by unfold InI64; omega)
     have e3 : add64 ((a.1 : Int) + (a.2 : Int)) 10 = (a.1 : Int) + (a.2 : Int) + 10 := add64_id (by unfold InI64; omega)
     have e4 : add64 size ((a.1 : Int) + (a.2 : Int) + 10) = size + ((a.1 : Int) + (a.2 : Int) + 10) :=
@@ -103,14 +105,14 @@ private theorem hdrFold_eq (step : Int → Int → Int → Int → Int)
 
 /-- `ProducerMessage.byteSize`: with the header loop's result being its extracted body folded over the
     headers from `maximumRecordOverhead`, the source computes the model's byteSize.
-    (`mro` = maximumRecordOverhead = 36 and binary.MaxVarintLen32 = 5 are checked by the harness.) -/
+    (maximumRecordOverhead and binary.MaxVarintLen32 are evaluated by the translator.) -/
 theorem byteSize_eq (version : Int) (m : Msg) (keyPresent valPresent : Bool)
     (hk : keyPresent = false → m.keyLen = 0) (hvl : valPresent = false → m.valLen = 0)
     (hr : byteSize version m ≤ 9223372036854775807) :
-    Gen.C16.byteSize version maximumRecordOverhead keyPresent valPresent m.keyLen m.valLen
-      (hdrFold Gen.C16.byteSizeHeaderStep 5 maximumRecordOverhead m.headers) = byteSize version m := by
+    Gen.C16.byteSize version keyPresent valPresent m.keyLen m.valLen
+      (hdrFold Gen.C16.byteSizeHeaderStep Gen.C16.maximumRecordOverhead m.headers) = byteSize version m := by
   have hn := headersSize_nonneg m.headers
-  unfold Gen.C16.byteSize
+  unfold Gen.C16.byteSize Gen.C16.maximumRecordOverhead
   unfold byteSize maximumRecordOverhead producerMessageOverhead at *
   by_cases hver : version ≥ 2
   · simp only [hver, ↓reduceIte] at hr ⊢
@@ -146,9 +148,9 @@ theorem dispatch_eq (c : Conf) (hnn : Bool) (m : Msg) :
 theorem addSize_eq_gen (c : Conf) (isNew : Bool) (m : Msg) (hr : addSize c isNew m ≤ 9223372036854775807) :
     addSize c isNew m =
       if c.v2 = true then
-        hdrFold Gen.C16.addHeaderStep 5
+        hdrFold Gen.C16.addHeaderStep
           (Gen.C16.addRecordPayload
-            (Gen.C16.addRecordOverhead (if isNew = true then Gen.C16.addBatchOverhead 0 else 0) maximumRecordOverhead)
+            (Gen.C16.addRecordOverhead (if isNew = true then Gen.C16.addBatchOverhead 0 else 0))
             m.keyLen m.valLen) m.headers
       else Gen.C16.addLegacySize 0 m.keyLen m.valLen := by
   have hn := headersSize_nonneg m.headers
@@ -197,5 +199,55 @@ theorem rollOver_eq (b : BP) (timer buffer nilTimer fresh : Int) :
     b.rollOver.timerArmed = false ∧ b.rollOver.buffer = State.empty := by
   unfold Gen.C16.rollOver BP.rollOver
   simp
+
+/-- the message branch of the run loop (from the overflow test to the arming of the timer; result: exit code
+    0 = falls through to the loop tail, 1 = `continue`, and bp.timer), non-idempotent producer (no producer id),
+    `timerVal`/`armedT` stand for bp.timer and the channel `time.After` returns, 0 for nil.
+    A message that does not overflow: added, timer armed if there is a frequency and none is running; a failing
+    add `continue`s and leaves everything as it was. -/
+theorem runMsgBranch_fits (c : Conf) (b : BP) (now : Int) (m : Msg) (timerVal armedT e1 e2 w1 w2 : Int)
+    (ht : timerVal ≠ 0 ↔ b.timerArmed = true) (ha : armedT ≠ 0) (hwo : wouldOverflow c b.buffer m = false) :
+    (addOk c b.buffer m = true →
+      (Gen.C16.runMsgBranch false (-1) e1 e2 c.flushFrequency timerVal 0 w1 w2 0 armedT).1 = 0 ∧
+      ((Gen.C16.runMsgBranch false (-1) e1 e2 c.flushFrequency timerVal 0 w1 w2 0 armedT).2 ≠ 0 ↔
+        (BP.step c b (.msg now m)).1.timerArmed = true) ∧
+      (BP.step c b (.msg now m)).1.buffer = add c b.buffer now m) ∧
+    (addOk c b.buffer m = false → ∀ addErr, addErr ≠ 0 →
+      Gen.C16.runMsgBranch false (-1) e1 e2 c.flushFrequency timerVal 0 w1 w2 addErr armedT = (1, timerVal) ∧
+      BP.step c b (.msg now m) = (b, [])) := by
+  unfold Gen.C16.runMsgBranch
+  refine ⟨?_, ?_⟩
+  · intro hok
+    simp only [BP.step, hwo, hok, Bool.false_eq_true, ↓reduceIte, BP.tail, ne_eq, not_true_eq_false, false_and]
+    by_cases hf : c.flushFrequency > 0
+    · by_cases h0 : timerVal = 0
+      · have : b.timerArmed = false := by
+          cases hb : b.timerArmed
+          · rfl
+          · exact absurd h0 (ht.mpr hb)
+        simp [hf, h0, ha, this]
+      · simp [hf, h0, ht.mp h0]
+    · by_cases h0 : timerVal = 0
+      · have : b.timerArmed = false := by
+          cases hb : b.timerArmed
+          · rfl
+          · exact absurd h0 (ht.mpr hb)
+        simp [hf, h0, this]
+      · simp [hf, h0, ht.mp h0]
+  · intro hok addErr hne
+    simp [BP.step, hwo, hok, hne]
+
+/-- … a message that would overflow: waitForSpace hands the buffer over and rolls over (bp.timer is nil
+    afterwards), the add into the fresh buffer cannot fail, the timer is armed iff there is a frequency -/
+theorem runMsgBranch_overflow (c : Conf) (b : BP) (now : Int) (m : Msg) (armedT e1 e2 w2 : Int)
+    (ha : armedT ≠ 0) (hwo : wouldOverflow c b.buffer m = true) :
+    (Gen.C16.runMsgBranch true (-1) e1 e2 c.flushFrequency 0 0 0 w2 0 armedT).1 = 0 ∧
+    ((Gen.C16.runMsgBranch true (-1) e1 e2 c.flushFrequency 0 0 0 w2 0 armedT).2 ≠ 0 ↔
+      (BP.step c b (.msg now m)).1.timerArmed = true) ∧
+    (BP.step c b (.msg now m)).2 = [b.buffer] ∧
+    (BP.step c b (.msg now m)).1.buffer = add c State.empty now m := by
+  unfold Gen.C16.runMsgBranch
+  simp only [BP.step, hwo, ↓reduceIte, BP.tail, ne_eq, not_true_eq_false, false_and]
+  by_cases hf : c.flushFrequency > 0 <;> simp [hf, ha]
 
 end Bridge.C16
